@@ -222,6 +222,7 @@ func c20Run(c *mon.Ctx, idx int) {
 	}
 	codes := c20CodeNodes(g)
 	if idx-1 >= len(codes) {
+		c20E2E(c, g, idx-1-len(codes))
 		return
 	}
 	cd := codes[idx-1]
@@ -311,17 +312,19 @@ func init() {
 			if err != nil {
 				return 1
 			}
-			return 1 + len(c20CodeNodes(g))
+			return 1 + len(c20CodeNodes(g)) + tierN(tier, 64, 4000)
 		},
 		Run:   c20Run,
 		Chunk: func(string, int) int { return 1 },
 		Required: func(tier string) []string {
 			// generic in the grammar: nothing about which node kinds it uses
-			return []string{"rules_compared", "nodes_compared", "actions_bound", "actions_executed_against_grammar", "action_argument_pairs_executed"}
+			return []string{"rules_compared", "nodes_compared", "actions_bound", "actions_executed_against_grammar", "action_argument_pairs_executed",
+				"e2e_inputs", "e2e_accepted", "e2e_rejected", "e2e_error_lists_compared"}
 		},
 		Post: func(a *mon.Agg) {
+			c20CoverSummary(a)
 			a.Extra["programs"] = a.Counters["rules_compared"]
-			a.Extra["disagreements_checked"] = a.Counters["nodes_compared"] + a.Counters["action_argument_pairs_executed"]
+			a.Extra["disagreements_checked"] = a.Counters["nodes_compared"] + a.Counters["action_argument_pairs_executed"] + a.Counters["e2e_inputs"]
 			if a.Counters["reader_failed"] > 0 {
 				a.Inconclusive("the grammar.peg reader does not understand the file")
 			}
